@@ -3,8 +3,9 @@ from .. import common, gen, ops, confine, walker, storemodel
 from autobean_refactor import models
 
 CASES = {'quick': 5000, 'thorough': 100000}
+SMALL_BLOCKS = 4      # runner: every 4th case keeps its stores in 2..10-token blocks
 GATES = {
-    'quick': {'evaluations': 8500, 'ops_changing_tokens': 7000, 'slot_kinds_seen': 12, 'op_kinds_seen': 60, 'list_position_cells': 12,
+    'quick': {'cases_in_small_blocks': 50, 'evaluations': 8500, 'ops_changing_tokens': 7000, 'slot_kinds_seen': 12, 'op_kinds_seen': 60, 'list_position_cells': 12,
               'gap_checks': 1500, 'multi_value_at_index0_nonempty': 20, 'negative_index_ops': 150},
     'thorough': {'evaluations': 250000, 'slot_kinds_seen': 12, 'op_kinds_seen': 70},
 }
